@@ -1,12 +1,14 @@
 import Holpy.Kernel.Wire
 import Holpy.Kernel.Oracle
 import Holpy.C01.GenAxioms
+import Holpy.C01.GenLogicDefs
 /-
 Line protocol of the kernel model (C01; also used by C03):
   (rule NAME ARG (THM*))                      -> (ok THM) | (err KIND)        one checker step
   (ruleax NAME ARGX (THM*))                   -> (ok THM) | (err KIND)        one checker step over logic_base:
        ARGX = (name THEOREM-NAME) | (var NAME Ty) | ARG; rule `theorem` copies a stored theorem (GenAxioms: axioms ++
        proved theorems), rule `variable` is mk_VAR
+  (ruleaxd NAME ARGX (THM*))                  -> as ruleax, over logic_base + the def equations of logic.json (GenLogicDefs)
   (rulest NAME ARGX (THM*) STATED)            -> the same with a stated sequent: STATED = (none) | THM
   (cex THM SPEC BUDGET SEED MAXCOST)          -> (valid N T|F) | (cex ((kind name Ty val)*)) | (skip WHY)
   (cexstd THM SPEC BUDGET SEED MAXCOST)       -> the same, over standard valuations of the base logic only
@@ -38,8 +40,7 @@ def okTy : Except TErr Ty → String
   | .error e => toString (Sexp.list [.atom "err", .atom (terrTo e)])
 
 /-- every theorem `logic_base` installs: what `get_theorem` can return -/
-def theoryTheorems : List (String × Thm) :=
-  Holpy.C01.Gen.baseAxioms ++ Holpy.C01.Gen.provedTheorems
+def theoryTheorems : List (String × Thm) := Holpy.C01.Gen.theoryTheorems
 
 def argAxOf : Sexp → Option ArgAx
   | .list [.atom "name", .atom n] => some (.name n)
@@ -62,6 +63,13 @@ def handle (line : String) : String :=
     match argAxOf arg, prems.mapM thmOf with
     | some a, some ps =>
       match checkStepAx theoryTheorems name a ps with
+      | .ok th => toString (Sexp.list [.atom "ok", thmTo th])
+      | .error e => toString (Sexp.list [.atom "err", .atom (rerrTo e)])
+    | _, _ => "bad-op"
+  | some (.list [.atom "ruleaxd", .atom name, arg, .list prems]) =>
+    match argAxOf arg, prems.mapM thmOf with
+    | some a, some ps =>
+      match checkStepSt (theoryTheorems ++ Holpy.C01.Gen.logicDefs) name a ps none with
       | .ok th => toString (Sexp.list [.atom "ok", thmTo th])
       | .error e => toString (Sexp.list [.atom "err", .atom (rerrTo e)])
     | _, _ => "bad-op"
